@@ -292,6 +292,26 @@ def _work_relations(task) -> core.Part:
     return p
 
 
+def _work_words(task) -> core.Part:
+    lo, step = task
+    from mc import cosemx
+
+    p = core.Part()
+    for w in cosemx.code_words(16)[lo::step]:
+        if any(c in w for c in "()/!*\r\n"):
+            continue
+        ls = [[("0-0:96.13.0", [(w, None)])], [("1-0:1.8.0", [("00000896.020", "kWh")])], [("0-0:96.1.1", [(w + " 1", None)]), ("1-0:32.7.0", [("230.1", "V")])]]
+        ident = ("/ABC5" + w)[:21].encode()
+        e = check_block(ls, ident=ident if RP.ident_ok(ident.decode()) else b"/ABC5xyz")
+        p.add("evaluations")
+        p.add("nontrivial")
+        if e:
+            _rep(p, "word", ls, e, ident=ident if RP.ident_ok(ident.decode()) else b"/ABC5xyz")
+            if p.full("word"):
+                return p
+    return p
+
+
 def bind() -> int:
     """The exact parser must agree with the expectations written in tests/test_dlde.py for its captured examples."""
     import tests.test_dlde as td
@@ -321,6 +341,7 @@ def main(run: core.Run) -> int:
     run.merge(par.pmap(_work_addr, [(cd[i::8],) for i in range(8)], seed=run.seed))
     run.merge(par.pmap(_work_clock_ident, [0], seed=run.seed))
     run.merge(par.pmap(_work_relations, [0], seed=run.seed))
+    run.merge(par.pmap(_work_words, [(i, 8) for i in range(8)], seed=run.seed))
     lens = list(range(0, 131)) + [255, 256, 257, 1000, 4000]
     run.merge(par.pmap(_work_lengths, [(lens[i::16],) for i in range(16)], seed=run.seed))
     tot = run.total
